@@ -14,6 +14,16 @@ NOTE = ('Trusted: clang 14 front end, the extractor tools/theo_facts.cc, the Pyt
         'executed.')
 
 CLAIMS = {
+    'C14': ('regex -> DFA construction for the flex specification with flex disambiguation; decoded-table automaton equivalence; AST rules on the generated yylex; CFG rules on scan()',
+            'Decides, on the automaton of the specification (all inputs at once), totality, the keyword table in both directions against '
+            'the documented spellings, action/enum agreement and absence of shadowed rules; proves the committed tables equivalent to the '
+            'specification by product construction and by byte-identical regeneration; checks every generated action and the scanner '
+            'driver (token identity, final EOF, line/file labels, whole-buffer scanning). Include splicing order itself is covered '
+            'structurally (C14.S2, C15.I4), not by running the scanner.', '4/C14'),
+    'C15': ('guard/dominance rules over scan(), propositional guard implication, request data-flow',
+            'Decides that each error kind is recorded under exactly its condition with the right request name, that a scanner is pushed '
+            'only for an existing file not on the active stack (depth bounded by the number of files, so scanning terminates given finite '
+            'files), that the recursion test inspects the whole stack, and that parse/compile return exactly the not-found names.', '4/C15'),
     'C09': ('comparator evaluation over all orderings (strict weak order + reference order), loop/iterator shape and dataflow rules over apply_macros / get_replacement / detector tables',
             'PARTIAL. Decides the tie-break order exactly (finite evaluation of the comparator), the visiting order of priority bins, the '
             'splice, the three cases of body instantiation, the agreement of the kind tables and the leftmost scan. Does not decide that '
